@@ -376,8 +376,8 @@ Proof.
   induction s as [|i r IH]; intros t Ht; cbn [fold_left]; [repeat split; auto; contradiction|].
   destruct (wtriple_waiter t i Ht) as (W & C & E & C1 & E0). destruct (IH _ W) as (W' & C' & E' & C1' & E0').
   split; [exact W'|]. split; [auto|]. split; [auto|]. split.
-  - intros [<-|H]; [apply C', C1; reflexivity|apply C1'; exact H].
-  - intros [<-|H] Hc; [apply E', E0; auto|apply E0'; auto].
+  - intros [Ei|H]; [apply C', C1; exact Ei|apply C1'; exact H].
+  - intros [Ei|H] Hc; [apply E', E0; auto|apply E0'; auto].
 Qed.
 
 Theorem cancelled_wait_ends_at_once : forall w s1 s2,
@@ -397,10 +397,13 @@ Qed.
 Theorem sleep_wait_outlasts_closure_refuted : forall w k, k < w ->
   nth_error (snd (wait_run SleepWait w (1 :: repeat 0 k))) 0 = Some (WWaiting (w - k)).
 Proof.
-  intros w k Hk. unfold wait_run. cbn [run fold_left]. unfold sys_step at 2. cbn.
-  revert w Hk. induction k as [|k IH]; intros w Hk; cbn [repeat fold_left].
-  - rewrite Nat.sub_0_r. reflexivity.
-  - destruct w as [|w]; [lia|]. unfold sys_step at 2. cbn. rewrite (IH w) by lia. reflexivity.
+  intros w k Hk. unfold wait_run.
+  change (false, [WWaiting w; WCloser false]) with (wstate (false, WWaiting w, false)).
+  rewrite wrun_triple. cbn [fold_left wtriple].
+  assert (H : forall k w, k < w -> fold_left (wtriple SleepWait) (repeat 0 k) (true, WWaiting w, true) = (true, WWaiting (w - k), true)).
+  { clear. induction k as [|k IH]; intros w Hk; cbn [repeat fold_left]; [now rewrite Nat.sub_0_r|].
+    destruct w as [|w]; [lia|]. cbn [wtriple wstep]. rewrite (IH w) by lia. reflexivity. }
+  rewrite (H k w Hk). reflexivity.
 Qed.
 
 (* refuted: going on with the next read after a failed write leaves a hole — the result is not a prefix of what was sent *)
